@@ -8,6 +8,176 @@ def li_fn(name, **kw):
 
 
 TEXT_OK = 'wf(self, source_text.spec_bytes())'
+SORTED = ('forall|i: int, j: int| 0 <= i < j < self.line_offsets@.len() ==> self.line_offsets@[i] < self.line_offsets@[j], '
+          'self.line_offsets@.len() >= 1, self.line_offsets@[0] == 0')
+
+# ghost prelude shared by get_offset / get_col_offset_at_line (names only, no proof content)
+OFFSET_GHOSTS = '''
+let ghost b = source_text.spec_bytes();
+let ghost col0 = col as int;
+let ghost ls: int = if line < self.line_offsets@.len() { self.line_offsets@[line as int] as int } else { 0 };
+let ghost ce: int = if line < self.line_offsets@.len() { content_end(self, b, line as int) } else { 0 };
+proof {
+    assert(self.line_offsets.len() == self.line_offsets@.len());   // a Vec's length is a usize: `line + 1` cannot overflow
+    if line < self.line_offsets@.len() { lemma_line_facts(self, b, line as int); }
+}
+'''
+
+# the char-walk `for c in <line slice>.chars()`: ghost `k` = number of chars consumed, `s` = the chars of
+# the line content. Verus' ghost iterator of a `for` loop is `VERUS_ghost_iter` (seq(), index()).
+WALK_BEFORE = '''
+let ghost mut k: int = 0;
+let ghost s: Seq<char> = decode_utf8(b.subrange(ls, ce));
+proof { lemma_line_content_chars(self, b, line as int); }
+'''
+WALK_INV = '''
+invariant_except_break
+    k == VERUS_ghost_iter.index(),
+invariant
+    wf(self, b), line < self.line_offsets@.len(),
+    ls == self.line_offsets@[line as int], ce == content_end(self, b, line as int),
+    VERUS_ghost_iter.seq() == s /*@C22.offset.in-line-clamped.walk-over-line-content*/,
+    encode_utf8(s) == b.subrange(ls, ce),
+    0 <= ls <= ce <= b.len(),
+    0 <= k <= s.len(),
+    offset == encode_utf8(s.subrange(0, k)).len(),
+    col + k == col0,
+ensures
+    k == s.len() || col == 0,
+'''
+WALK_STEP = '''
+proof {
+    assert(c == s[k]);
+    lemma_encode_prefix(s, k);
+    lemma_encode_prefix(s, k + 1);
+}
+'''
+WALK_AFTER = '''
+proof { lemma_offset_from_chars(self, b, line as int, col0, s, k, offset as int); }
+'''
+WALK_PROOF = [
+    (r'for c in', 'before', WALK_BEFORE),
+    (r'offset \+= c\.len_utf8\(\);', 'before', WALK_STEP),
+    (r'col -= 1;', 'after', 'proof { k = k + 1; }'),
+    (r'let col = col\.min\([^;]*\);', 'after',
+     'proof { lemma_ascii_line_col(self, b, line as int, ls + col); }'),
+]
+
+COL_PROOF = [
+    (r'let text = &source_text\[[^;]*\];', 'before', '''
+proof {
+    lemma_line_facts(self, source_text.spec_bytes(), line as int);
+}'''),
+    (r'let text = &source_text\[[^;]*\];', 'after', '''
+proof {
+    lemma_str_view_decode(text);
+    lemma_col_by_count(self, source_text.spec_bytes(), line as int, offset.raw as int, text@);
+    assert(on_line(self, source_text.spec_bytes(), offset.raw as int, line as int));   // witness of `exists l`
+}'''),
+    (r'if self\.is_line_only_ascii_index\(line\) \{', 'after', '''
+proof {
+    lemma_on_line(self, source_text.spec_bytes(), offset.raw as int, line as int);
+    lemma_ascii_line_col(self, source_text.spec_bytes(), line as int, offset.raw as int);
+    assert(col_of(self, source_text.spec_bytes(), line as int, offset.raw as int) == offset.raw - start_offset.raw);   // witness of `exists l`
+}'''),
+]
+
+DOC = 'crates/emmylua_code_analysis/src/vfs/document.rs'
+
+
+def doc_fn(name, **kw):
+    d = {'src': {'file': DOC, 'kind': 'fn', 'impl': 'LuaDocument', 'name': name}}
+    d.update(kw)
+    return d
+
+
+DOC_OK = 'wf(self.line_index, self.text.spec_bytes())'
+DOC_B = 'self.text.spec_bytes()'
+
+
+def in_text(off):
+    return '%s.raw <= %s.len(), is_char_boundary(%s, %s.raw as int)' % (off, DOC_B, DOC_B, off)
+
+
+def pos_of(pos, off):
+    """`pos` is the LSP position of offset `off`"""
+    return ('on_line(self.line_index, %s, %s.raw as int, %s.line as int) && %s.character == col_of(self.line_index, %s, %s.line as int, %s.raw as int)'
+            % (DOC_B, off, pos, pos, DOC_B, pos, off))
+
+
+DOC_ITEMS = {
+    'LuaDocument': {'src': {'file': DOC, 'kind': 'struct', 'name': 'LuaDocument'},
+                    'rules': [('struct-fields', {'keep': ['text', 'line_index']})]},
+    'LuaDocument::get_line_col': doc_fn(
+        'get_line_col', ret='r',
+        requires=DOC_OK + ', ' + in_text('offset'),
+        ensures="""r matches Some((l, c)) && on_line(self.line_index, self.text.spec_bytes(), offset.raw as int, l as int)
+            && c == col_of(self.line_index, self.text.spec_bytes(), l as int, offset.raw as int) /*@C22.doc.get_line_col*/"""),
+    'LuaDocument::get_offset': doc_fn(
+        'get_offset', ret='r',
+        requires=DOC_OK,
+        ensures="""line >= self.line_index.line_offsets@.len() <==> r is None /*@C22.doc.offset.none-iff-line-missing*/,
+        r matches Some(o) ==> offset_ok(self.line_index, self.text.spec_bytes(), line as int, col as int, o.raw as int) /*@C22.doc.offset.in-line-clamped*/,
+        r matches Some(o) ==> o.raw <= self.text.spec_bytes().len() /*@C25.offset-in-document*/""",
+        proof=[(r'self\.line_index\.get_offset\(line, col, self\.text\)', 'before',
+                'proof { if line < self.line_index.line_offsets@.len() { lemma_line_facts(self.line_index, self.text.spec_bytes(), line as int); } }')]),
+    'LuaDocument::get_col_offset_at_line': doc_fn(
+        'get_col_offset_at_line', ret='r',
+        requires=DOC_OK,
+        ensures="""line >= self.line_index.line_offsets@.len() <==> r is None /*@C22.doc.coloffset.none-iff-line-missing*/,
+        r matches Some(o) ==> offset_ok(self.line_index, self.text.spec_bytes(), line as int, col as int, self.line_index.line_offsets@[line as int] + o.raw) /*@C22.doc.coloffset.in-line-clamped*/,
+        r matches Some(o) ==> self.line_index.line_offsets@[line as int] + o.raw <= self.text.spec_bytes().len() /*@C25.coloffset-in-document*/""",
+        proof=[(r'self\.line_index\.get_col_offset_at_line\(line, col, self\.text\)', 'before',
+                'proof { if line < self.line_index.line_offsets@.len() { lemma_line_facts(self.line_index, self.text.spec_bytes(), line as int); } }')]),
+    'LuaDocument::get_line_range': doc_fn(
+        'get_line_range', ret='r',
+        requires=DOC_OK,
+        ensures="""r matches Some(rg) ==> line < self.line_index.line_offsets@.len() && rg.wf()
+            && rg.start.raw == self.line_index.line_offsets@[line as int]
+            && rg.end.raw == line_end(self.line_index, self.text.spec_bytes(), line as int)
+            && rg.end.raw <= self.text.spec_bytes().len() /*@C22.doc.line-range*/,
+        // no range: the line does not exist, or it is the (empty) last line
+        r is None <==> (line >= self.line_index.line_offsets@.len()
+            || (line + 1 == self.line_index.line_offsets@.len() && self.line_index.line_offsets@[line as int] == self.text.spec_bytes().len())) /*@C22.doc.line-range.none*/""",
+        body_first="""
+proof {
+    assert(self.line_index.line_offsets.len() == self.line_index.line_offsets@.len());   // Vec length is a usize: `line + 1` cannot overflow
+    if line < self.line_index.line_offsets@.len() { lemma_line_facts(self.line_index, self.text.spec_bytes(), line as int); }
+}"""),
+    'LuaDocument::to_lsp_range': doc_fn(
+        'to_lsp_range', ret='r',
+        requires=DOC_OK + ', range.wf(), ' + in_text('range.start') + ', ' + in_text('range.end'),
+        ensures='r matches Some(rg) && pos_le(rg.start, rg.end) /*@C21.range-wellformed*/,\n'
+                + '        r matches Some(rg) && ' + pos_of('rg.start', 'range.start') + '\n            && ' + pos_of('rg.end', 'range.end') + ' /*@C22.doc.to_lsp_range*/',
+        proof=[(r'let end = self\.get_line_col\(range\.end\(\)\)\?;', 'after', """
+proof {
+    let b = self.text.spec_bytes();
+    lemma_position_fits(self.line_index, b, range.start.raw as int, start.0 as int);
+    lemma_position_fits(self.line_index, b, range.end.raw as int, end.0 as int);
+    lemma_line_col_monotonic(self.line_index, b, range.start.raw as int, start.0 as int, range.end.raw as int, end.0 as int);
+}""")]),
+    'LuaDocument::to_lsp_position': doc_fn(
+        'to_lsp_position', ret='r',
+        requires=DOC_OK + ', ' + in_text('offset'),
+        ensures='r matches Some(p) && ' + pos_of('p', 'offset') + ' /*@C22.doc.to_lsp_position*/',
+        proof=[(r'let line_col = self\.get_line_col\(offset\)\?;', 'after',
+                'proof { lemma_position_fits(self.line_index, self.text.spec_bytes(), offset.raw as int, line_col.0 as int); }')]),
+    'LuaDocument::to_rowan_range': doc_fn(
+        'to_rowan_range', ret='r',
+        # weakest precondition we state for `TextRange::new(start, end)` (its assert!(start <= end)): when both
+        # lines exist, the LSP range is ordered
+        requires=DOC_OK + """,
+        (range.start.line < self.line_index.line_offsets@.len() && range.end.line < self.line_index.line_offsets@.len()) ==> pos_le(range.start, range.end)""",
+        ensures="""r is None <==> (range.start.line >= self.line_index.line_offsets@.len() || range.end.line >= self.line_index.line_offsets@.len()) /*@C22.doc.to_rowan_range.none-iff-line-missing*/,
+        r matches Some(rg) ==> rg.wf() && rg.end.raw <= self.text.spec_bytes().len() /*@C25.offset-in-document*/,
+        r matches Some(rg) ==> offset_ok(self.line_index, self.text.spec_bytes(), range.start.line as int, range.start.character as int, rg.start.raw as int)
+            && offset_ok(self.line_index, self.text.spec_bytes(), range.end.line as int, range.end.character as int, rg.end.raw as int) /*@C22.doc.to_rowan_range.clamped*/""",
+        proof=[(r'Some\(TextRange::new\(start, end\)\)', 'before', """
+proof {
+    lemma_offsets_ordered(self.line_index, self.text.spec_bytes(), range.start.line as int, range.start.character as int, start.raw as int,
+        range.end.line as int, range.end.character as int, end.raw as int);
+}""")]),
+}
 
 UNIT = {
     'items': {
@@ -15,19 +185,36 @@ UNIT = {
         'LineIndex::parse': li_fn(
             'parse', ret='r', rules=['iter-enum-copied', 'assert-eq'],
             requires='text.spec_bytes().len() < 0xffff_ffff',
-            ensures='wf(&r, text.spec_bytes()) /*@C22.parse.wf*/'),
+            ensures='wf(&r, text.spec_bytes()) /*@C22.parse.wf*/',
+            loops={0: '''
+invariant
+    __s@ == text.spec_bytes(),
+    __s@.len() < 0xffff_ffff,
+    parse_inv(line_offsets@, line_only_ascii_vec@, is_line_only_ascii, __s@, index as int) /*@C22.parse.wf.inv*/,
+'''},
+            proof=[
+                (r'let mut is_line_only_ascii = true;', 'after',
+                 'proof { lemma_parse_init(text.spec_bytes()); assert(line_offsets@ =~= seq![0u32]); assert(line_only_ascii_vec@ =~= Seq::<bool>::empty()); }'),
+                (r'let byte = __s\[index\];', 'after',
+                 'proof { lemma_parse_step(line_offsets@, line_only_ascii_vec@, is_line_only_ascii, __s@, index as int); }'),
+                (r'line_only_ascii_vec\.push\(is_line_only_ascii\);\n\n', 'before',
+                 '''proof {
+    lemma_str_view_decode(text);
+    lemma_parse_finish(line_offsets@, line_only_ascii_vec@, is_line_only_ascii, text.spec_bytes());
+}'''),
+            ]),
         'LineIndex::get_line_offset': li_fn(
             'get_line_offset', ret='r',
             ensures='''line < self.line_offsets@.len() ==> r == Some(TextSize { raw: self.line_offsets@[line as int] }),
             line >= self.line_offsets@.len() ==> r is None /*@C22.line-missing-is-none*/'''),
         'LineIndex::get_line': li_fn(
             'get_line', ret='r', rules=['partition-point-le'],
-            requires='forall|i: int, j: int| 0 <= i < j < self.line_offsets@.len() ==> self.line_offsets@[i] < self.line_offsets@[j], self.line_offsets@.len() >= 1, self.line_offsets@[0] == 0',
+            requires=SORTED,
             ensures='''r matches Some(l) && 0 <= l < self.line_offsets@.len() && self.line_offsets@[l as int] <= offset.raw
                 && (l + 1 < self.line_offsets@.len() ==> offset.raw < self.line_offsets@[l + 1]) /*@C22.get_line*/'''),
         'LineIndex::get_line_with_start_offset': li_fn(
             'get_line_with_start_offset', ret='r',
-            requires='forall|i: int, j: int| 0 <= i < j < self.line_offsets@.len() ==> self.line_offsets@[i] < self.line_offsets@[j], self.line_offsets@.len() >= 1, self.line_offsets@[0] == 0',
+            requires=SORTED,
             ensures='''r matches Some((l, s)) && 0 <= l < self.line_offsets@.len() && s.raw == self.line_offsets@[l as int] && s.raw <= offset.raw
                 && (l + 1 < self.line_offsets@.len() ==> offset.raw < self.line_offsets@[l + 1])'''),
         'LineIndex::is_line_only_ascii_index': li_fn(
@@ -38,33 +225,85 @@ UNIT = {
             'get_col', ret='r', rules=['chars-count'],
             requires=TEXT_OK + ', offset.raw <= source_text.spec_bytes().len(), is_char_boundary(source_text.spec_bytes(), offset.raw as int)',
             ensures='''r matches Some(c) && exists|l: int| on_line(self, source_text.spec_bytes(), offset.raw as int, l)
-                && c == col_of(self, source_text.spec_bytes(), l, offset.raw as int) /*@C22.get_col*/'''),
+                && c == col_of(self, source_text.spec_bytes(), l, offset.raw as int) /*@C22.get_col*/''',
+            proof=COL_PROOF),
         'LineIndex::get_line_col': li_fn(
             'get_line_col', ret='r', rules=['chars-count'],
             requires=TEXT_OK + ', offset.raw <= source_text.spec_bytes().len(), is_char_boundary(source_text.spec_bytes(), offset.raw as int)',
             ensures='''r matches Some((l, c)) && on_line(self, source_text.spec_bytes(), offset.raw as int, l as int)
-                && c == col_of(self, source_text.spec_bytes(), l as int, offset.raw as int) /*@C22.get_line_col*/'''),
+                && c == col_of(self, source_text.spec_bytes(), l as int, offset.raw as int) /*@C22.get_line_col*/''',
+            proof=COL_PROOF),
         'LineIndex::get_offset': li_fn(
             'get_offset', ret='r',
             requires=TEXT_OK,
             ensures='''line >= self.line_offsets@.len() <==> r is None /*@C22.offset.none-iff-line-missing*/,
-            r matches Some(o) ==> offset_ok(self, source_text.spec_bytes(), line as int, col as int, o.raw as int) /*@C22.offset.in-line-clamped*/'''),
+            r matches Some(o) ==> offset_ok(self, source_text.spec_bytes(), line as int, col as int, o.raw as int) /*@C22.offset.in-line-clamped*/''',
+            body_first=OFFSET_GHOSTS,
+            loops={0: WALK_INV},
+            proof=WALK_PROOF + [
+                (r'Some\(start_offset \+ TextSize::from\(offset as u32\)\)', 'before', WALK_AFTER),
+            ]),
         'LineIndex::get_col_offset_at_line': li_fn(
             'get_col_offset_at_line', ret='r',
             requires=TEXT_OK,
             ensures='''line >= self.line_offsets@.len() <==> r is None /*@C22.coloffset.none-iff-line-missing*/,
-            r matches Some(o) ==> offset_ok(self, source_text.spec_bytes(), line as int, col as int, self.line_offsets@[line as int] + o.raw) /*@C22.coloffset.in-line-clamped*/'''),
+            r matches Some(o) ==> offset_ok(self, source_text.spec_bytes(), line as int, col as int, self.line_offsets@[line as int] + o.raw) /*@C22.coloffset.in-line-clamped*/''',
+            body_first=OFFSET_GHOSTS,
+            loops={0: WALK_INV},
+            proof=WALK_PROOF + [
+                (r'Some\(TextSize::from\(offset as u32\)\)', 'before', WALK_AFTER),
+            ]),
     },
     'extra_rules': [
         ('get-copied-unwrap-or', r'(\w+(?:\.\w+)*)\.get\((\w+)\)\.copied\(\)\.unwrap_or\(false\)',
          r'(if \2 < \1.len() { \1[\2] } else { false })',
          'V.get(i).copied().unwrap_or(false) -> if i < V.len() { V[i] } else { false } (std: slice::get returns None out of bounds)'),
     ],
-    'allow': [r'external_body'],
+    'mutants': [
+        # the defect this unit was written for: ASCII path clamps to the text length instead of the line
+        {'name': 'ascii-clamp-to-text-len', 'item': 'LineIndex::get_offset',
+         'pattern': r'col\.min\(line_end - usize::from\(start_offset\)\)', 'repl': 'col.min(source_text.len())',
+         'expect': r'C22\.offset\.in-line-clamped\]'},
+        {'name': 'coloffset-ascii-clamp-to-text-len', 'item': 'LineIndex::get_col_offset_at_line',
+         'pattern': r'col\.min\(line_end - usize::from\(start_offset\)\)', 'repl': 'col.min(source_text.len())',
+         'expect': r'C22\.coloffset\.in-line-clamped\]'},
+        # the other half of the defect: the char walk runs across the newline into later lines
+        {'name': 'walk-past-line-end', 'item': 'LineIndex::get_offset',
+         'pattern': r'\.\.line_end\]\.chars\(\)', 'repl': '..].chars()',
+         'expect': r'C22\.offset\.in-line-clamped'},
+        {'name': 'clamp-includes-newline', 'item': 'LineIndex::get_offset',
+         'pattern': r'usize::from\(next_line_start\) - 1', 'repl': 'usize::from(next_line_start)',
+         'expect': r'C22\.offset\.in-line-clamped'},
+        {'name': 'parse-drop-plus-one', 'item': 'LineIndex::parse',
+         'pattern': r'line_offsets\.push\(\(index \+ 1\) as u32\)', 'repl': 'line_offsets.push(index as u32)',
+         'expect': r'C22\.parse\.wf'},
+        {'name': 'parse-ascii-flag-off-by-one', 'item': 'LineIndex::parse',
+         'pattern': r'byte >= 0x80', 'repl': 'byte > 0x80',
+         'expect': r'C22\.parse\.wf'},
+        {'name': 'parse-ascii-flag-not-reset', 'item': 'LineIndex::parse',
+         'pattern': r'line_only_ascii_vec\.push\(is_line_only_ascii\);\s*is_line_only_ascii = true;', 'repl': 'line_only_ascii_vec.push(is_line_only_ascii);',
+         'expect': r'C22\.parse\.wf'},
+        {'name': 'get-line-off-by-one', 'item': 'LineIndex::get_line',
+         'pattern': r'Some\(line - 1\)', 'repl': 'Some(line)',
+         'expect': r'C22\.get_line\]'},
+        {'name': 'line-offset-le', 'item': 'LineIndex::get_line_offset',
+         'pattern': r'line_index < self\.line_offsets\.len\(\)', 'repl': 'line_index <= self.line_offsets.len()',
+         'expect': r'C22\.line-missing-is-none'},
+        {'name': 'col-zero-returns-none', 'item': 'LineIndex::get_offset',
+         'pattern': r'return Some\(start_offset\);', 'repl': 'return None;',
+         'expect': r'C22\.offset\.none-iff-line-missing'},
+        {'name': 'line-col-ascii-col-from-text-start', 'item': 'LineIndex::get_line_col',
+         'pattern': r'usize::from\(offset - start_offset\)', 'repl': 'usize::from(offset)',
+         'expect': r'C22\.get_line_col'},
+    ],
+    'allow': [r'external_body', r'assume_specification<I: core::slice::SliceIndex<str>>'],
     'min_obligations': 10,
     'trusted': [
         'text-size shim (units/common/textsize.rs), cross-checked by Kani against the real crate (thorough tier)',
         'vx_partition_point_le: std doc contract of slice::partition_point; vx_chars_count: str::chars().count() == number of scalar values',
+        'assume_specification <str as Index<I>>::index: forwards to SliceIndex<str>::index (core/src/str/traits.rs); vstd only ships the precondition',
         'input assumption: text.len() < 2^32 - 1 (offsets are u32; rowan has the same limit)',
     ],
 }
+
+UNIT['items'].update(DOC_ITEMS)
